@@ -20,7 +20,7 @@ func init() {
 			"R-C19-2 every send on a Change channel is a case of a non-blocking select, subscriber channels have constant capacity 8; " +
 			"R-C19-3 the send is guarded by (subscription key & change) != 0 for the key under which the channel is registered and by the interface lookup, value sent is that change; " +
 			"R-C19-4 subscriber channels are closed only in Watch's deferred function under the write lock, after the single-use guard; that function records that watching has ended, and Subscribe (write lock held) registers its fresh channel exactly once while it has not, and closes it unregistered once it has; " +
-			"R-C19-5 rtnetlink operstate ↔ Change table by name, LinkAny is the OR of all seven, BuildTasks subscribes to LinkDown R-C19-1 also: a function holding Watcher.mu never calls one that acquires it; R-C19-3 is decided on the enumerated paths of notify (helpers in line) and every path through the send loops back to the subscriber loop; the watching guard swaps in a non-zero marker. R-C19-4 also: the closing function is never used as a value (bound method, stored or passed closure, go statement). The closing function's defer dominates every return of Watch.",
+			"R-C19-5 rtnetlink operstate ↔ Change table by name, LinkAny is the OR of all seven, BuildTasks subscribes to LinkDown R-C19-1 also: a function holding Watcher.mu never calls one that acquires it; R-C19-3 is decided on the enumerated paths of notify (helpers in line) and every path through the send loops back to the subscriber loop; the watching guard swaps in a non-zero marker. R-C19-4 also: the closing function is never used as a value (bound method, stored or passed closure, go statement). The closing function's defer dominates every return of Watch. R-C19-3 also: a subscription whose mask intersects the change always reaches the loop over its channels (no remembered last value or rate limit in between).",
 		Assumptions: []string{
 			"Go type checker and go/ssa construction are correct",
 			"sync.RWMutex provides mutual exclusion; a function whose first action is Lock/RLock followed by a deferred Unlock/RUnlock holds the lock until it returns",
